@@ -437,7 +437,7 @@ func (f *Frame) dispatchCall(key string, c *ssa.CallCommon, fnv Val, args []Val,
 		res = f.dispatchIface(fc, key, sig, args, reach, st, point)
 	case fc != nil && !fc.Inline:
 		res = f.applyContract(fc, key, callee, sig, c.IsInvoke(), args, reach, st, point)
-	case callee != nil && len(callee.Blocks) > 0 && (callee.Pkg == e.pkg || fnv.Clos != nil) && f.depthOK(callee):
+	case callee != nil && len(callee.Blocks) > 0 && callee.Pkg == e.pkg && f.depthOK(callee):
 		var bs []Val
 		if fnv.Clos != nil {
 			bs = fnv.Clos.Bindings
